@@ -1,14 +1,23 @@
 //! Harness entry: `verif <ID> --tier quick|thorough`, `verif replay <file>`, `verif selfcheck`.
 
 pub mod boardprops;
+pub mod cutprops;
 pub mod eng;
 pub mod evalprop;
 pub mod explore;
 pub mod fenprop;
+pub mod goprops;
+pub mod infogrammar;
 pub mod oracle;
+pub mod procprops;
 pub mod report;
+pub mod searchrun;
 pub mod seeds;
+pub mod session;
+pub mod spos;
 pub mod tablesprop;
+pub mod uciproc;
+pub mod workers;
 
 pub struct Args {
     pub cmd: String,
@@ -58,6 +67,24 @@ pub fn main() -> i32 {
         "C06" => tablesprop::run(&args),
         "C07" => fenprop::run(&args),
         "C17" => evalprop::run(&args),
+        "C13" => cutprops::run(&args),
+        "C09" => procprops::c09_run(&args),
+        "C14" => procprops::c14_run(&args),
+        "C15" => procprops::c15_run(&args),
+        "worker" => {
+            let Some(id) = args.rest.first().cloned() else { return 2 };
+            let Some(w) = workers::Worker::from_args(&args.rest) else {
+                eprintln!("bad worker arguments");
+                return 2;
+            };
+            match id.as_str() {
+                "C13" => cutprops::worker(&args, &w),
+                "C09" => goprops::c09_worker(&args, &w),
+                "C14" => goprops::c14_worker(&args, &w),
+                "C15" => procprops::c15_worker(&args, &w),
+                _ => 2,
+            }
+        }
         "replay" => {
             let Some(p) = args.rest.first() else {
                 eprintln!("usage: verif replay <file>");
@@ -85,6 +112,10 @@ fn replay(path: &str) -> i32 {
         "C01" | "C02" | "C03" | "C04" | "C05" => boardprops::replay(&prop, &doc),
         "C07" => fenprop::replay(&doc),
         "C17" => evalprop::replay(&doc),
+        "C13" => cutprops::replay(&doc),
+        "C09" => goprops::replay_c09(&doc),
+        "C14" => goprops::replay_c14(&doc),
+        "C15" => procprops::replay_c15(&doc),
         _ => {
             eprintln!("no replay for property {prop}");
             2
